@@ -190,7 +190,7 @@ def run(ctx):
         directed = [directed[r2.below(len(directed))] for _ in range(60)]
     for name, text in directed:
         worlds.append(("directed", name, text))
-    rws, rej = witgen.gen_valid_worlds(ctx.rng.fork(15), 60 if quick else 2500, W.random_opts)
+    rws, rej = witgen.gen_valid_worlds(ctx.rng.fork(15), 60 if quick else 1500, W.random_opts)
     for i, w in enumerate(rws):
         worlds.append(("random", "random:%d" % i, w.text))
     valid = vf.run_filter([exe, "valid"], [enc(("", "", None, t)) for _, _, t in worlds])
